@@ -460,7 +460,8 @@ def r4(ctx):
     rs = list(d.calls('resend_event_notifications'))
     if not rs:
         raise AnalysisBroken('qb_ipcs_dispatch_connection_request: no resend of owed notifications')
-    gated = [a for ev in rs for (a, _e) in d.guards(ev) if any(n.get('k') == 'mem' and n.get('f') == 'fc_enabled' for n in list(walk(a.l)) + list(walk(a.r)))]
+    gated = [estr(d.blocks[fb].cond) for ev in rs for fb in d.controlling_blocks(ev.blk)
+             if any(n.get('k') == 'mem' and n.get('f') == 'fc_enabled' for n in walk(d.blocks[fb].cond))]
     ctx.check('R4', 'resend:not-behind-flow-control', not gated, rs[0], 'the dispatcher sends the owed notifications on POLLOUT whether or not flow control is on',
               'the dispatcher sends the owed notifications only while flow control is off (%s): with the rate limit at OFF, events whose notification byte was deferred stay in the ring and the descriptor the client polls is not readable'
               % (gated[0] if gated else ''))
